@@ -28,11 +28,11 @@ TOL = 1e-9
 # Alphabet.  Bin sizes are distinct inside a class, gc / rmask / spread / reference log2 values are
 # distinct and not monotone in position or size, so every covariate order is total.
 LAYOUTS = {
-    # 7 targets + 3 antitargets, chr1 / chr2; one close target pair (gap 100 < insert size)
+    # 7 targets + 4 antitargets, chr1 / chr2; one close target pair (gap 100 < insert size)
     "A": {
         "T": [("chr1", 1000, 1300), ("chr1", 1400, 1810), ("chr1", 5000, 5520), ("chr1", 9000, 9630),
               ("chr2", 1000, 1340), ("chr2", 3000, 3450), ("chr2", 7000, 7560)],
-        "A": [("chr1", 2000, 4900), ("chr1", 5600, 8900), ("chr2", 3500, 6900)],
+        "A": [("chr1", 2000, 4900), ("chr1", 5600, 8900), ("chr2", 3500, 6900), ("chr2", 7600, 10700)],
     },
     # 6 targets + 4 antitargets, chr1 / chr2 / chr10 (numeric, not lexical, chromosome order); tiles smaller
     # than the insert size, a neighbour flank reaching past the far side of a 120-base tile
@@ -89,9 +89,31 @@ CORR_ENDS = [(), ("gc", "edge", "rmask")]
 COLSETS = {"both": ("gc", "rmask"), "none": (), "gc": ("gc",), "rmask": ("rmask",)}
 
 
+RULERS = [260, 330, 420, 540, 720, 1000]  # isolated tiles: edge value -125/size, a ruler for the values of the tiles under test
+EDGE_GRID = {
+    "quick": {"a": [60, 120, 200, 250, 300, 480], "b": [70, 130, 210, 260, 310, 500], "g1": [0, 40, 100, 180, 249, 250, 300], "g2": [200, 400]},
+    "thorough": {"a": [30, 60, 90, 120, 160, 200, 249, 250, 300, 480], "b": [35, 70, 100, 130, 170, 210, 251, 260, 310, 500],
+                 "g1": [-20, 0, 1, 40, 100, 140, 180, 220, 249, 250, 300], "g2": [200, 249, 400]},
+}
+
+
+def get_layout(name):
+    """A named layout, or a generated one "E/a/g1/b/g2": chr1 carries three tiles of sizes a, b, 280 separated by gaps g1, g2
+    (g1 + b + g2 >= insert size, so only adjacent tiles are ever within the margin), chr2 the isolated ruler tiles."""
+    if name in LAYOUTS:
+        return LAYOUTS[name]
+    _, a, g1, b, g2 = name.split("/")
+    a, g1, b, g2 = int(a), int(g1), int(b), int(g2)
+    s1 = 5000 + a + g1
+    s2 = s1 + b + g2
+    tiles = [("chr1", 5000, 5000 + a), ("chr1", s1, s1 + b), ("chr1", s2, s2 + 280)]
+    tiles += [("chr2", 2000 * (k + 1), 2000 * (k + 1) + w) for k, w in enumerate(RULERS)]
+    return {"T": tiles, "A": []}
+
+
 def layout_bins(name):
     """All bins of a layout in genomic order: (chrom, start, end, cls, index inside the class)."""
-    lay = LAYOUTS[name]
+    lay = get_layout(name)
     rows = [(c, s, e, "T", i) for i, (c, s, e) in enumerate(lay["T"])] + [(c, s, e, "A", i) for i, (c, s, e) in enumerate(lay["A"])]
     return sorted(rows, key=lambda r: (M.chrom_key(r[0]), r[1], r[2]))
 
@@ -222,16 +244,18 @@ def describe(tier):
         "bin for bin). state = (case, correction subset, variant); non-trivial = a bin was filtered or absent, a correction acted, "
         "or rows were permuted / rescaled",
         "bound": {
-            "layouts": "A (7 targets + 3 antitargets, chr1 chr2), B (6 + 4, chr1 chr2 chr10, tiles < insert size), tiny (5 + 3)"
+            "layouts": "A (7 targets + 4 antitargets, chr1 chr2), B (6 + 4, chr1 chr2 chr10, tiles < insert size), tiny (5 + 3)"
             + ("; X (8 + 4 with chrX), big (10 + 4)" if t else ""),
             "reference": "pooled / flat x columns {gc+rmask, none, gc, rmask}" + ("" if t else " (column subsets and flat x column subsets on layout A)"),
-            "bad_bins": "every single bin x 6 bad ways + 6 on-the-boundary values x all 8 correction subsets; every pair of bins x 6x6 bad ways"
+            "bad_bins": "every single bin x 6 bad ways + 6 on-the-boundary values x all 8 correction subsets (on-target bins also with an empty antitarget); every pair of bins x 6x6 bad ways"
             + (" on every layout x {none, all, gc, edge} corrections; every triple of bins x 6^3 ways on layout A" if t else " on layout A x {no, all} corrections"),
             "sample": "same bins; every deletion of <= 2 bins; empty antitarget; sample variants plain / noisy (weights clipped) / one zero-depth bin",
             "corrections": "all 8 subsets of {gc, edge, rmask}; window fraction 0.5" + (" and 0.9" if t else " (0.9 on layout A)"),
             "scales": [1, 0.5, 8],
             "row_orders": "tiny layout: all 120 orders of the target rows and all 6 of the antitarget rows; otherwise reversal, rotation by 1 and n/2, "
             "one transposition" + (", every rotation and every adjacent transposition" if t else "") + " for each of the three inputs",
+            "edge_grid": "three adjacent tiles of sizes a, b, 280 with gaps g1, g2 next to six isolated ruler tiles; a x b x g1 x g2 = "
+            + "x".join(str(len(EDGE_GRID[tier][k])) for k in ("a", "b", "g1", "g2")) + ", edge correction only",
             "refusals": "every bin x {start shifted, end changed, other chromosome, extra bin} absent from the reference; every bin duplicated in the "
             "target table / antitarget table / reference (adjacent and at the end)",
         },
@@ -290,6 +314,12 @@ def cases(tier):
                    "corr": [list(corr)], "frac": 0.5, "variants": "tall"}
     yield {"check": "perm-all", "layout": "tiny", "ref": "pooled", "cols": "both", "sample": "plain", "anti": "full", "bad": [], "drop": [],
            "corr": [list(c) for c in CORR_ALL], "frac": 0.5, "variants": "aall"}
+    # 3b. the edge covariate: tile sizes and gaps on a grid around the insert size, ranked against isolated ruler tiles
+    grid = EDGE_GRID[tier]
+    for a in grid["a"]:
+        for b in grid["b"]:
+            yield {"check": "edge-grid", "a": a, "b": b, "ref": "pooled", "cols": "none", "sample": "plain", "anti": "empty",
+                   "corr": [["edge"]], "frac": 0.5, "variants": "none"}
     # 4. one bad bin / one boundary value, every bin, every way
     for layout in main:
         n = len(layout_bins(layout))
@@ -335,6 +365,15 @@ def run(case, ctx):
         return run_refuse(case, ctx)
     if kind in ("core", "perm-all", "subset"):
         return explore(ctx, case, case["bad"], case["drop"])
+    if kind == "edge-grid":
+        grid = EDGE_GRID[ctx.tier]
+        for g1 in grid["g1"]:
+            for g2 in grid["g2"]:
+                if g1 + case["b"] + g2 < M.INSERT_SIZE:
+                    continue  # a second neighbour inside the margin: the statement does not say whether it counts
+                name = "E/%d/%d/%d/%d" % (case["a"], g1, case["b"], g2)
+                explore(ctx, dict(case, layout=name), [], [], sub0={"layout": name})
+        return None
     if kind == "bad1":
         return explore(ctx, case, [(case["k"], case["way"])], [])
     if kind == "bad2":
